@@ -2257,6 +2257,8 @@ class Attribute(object):
         if attr.lazy:
             entity = attr.entity
             database = entity._database_
+            if cache is not database._get_cache():
+                throw(TransactionError, "Object %s doesn't belong to current transaction" % safe_repr(obj))
             if not attr.lazy_sql_cache:
                 select_list = [ 'ALL' ] + [ [ 'COLUMN', None, column ] for column in attr.columns ]
                 from_list = [ 'FROM', [ None, 'TABLE', entity._table_ ] ]
@@ -2300,6 +2302,8 @@ class Attribute(object):
     def __set__(attr, obj, new_val, undo_funcs=None):
         cache = obj._session_cache_
         if cache is None or not cache.is_alive: throw_db_session_is_over('assign new value to', obj, attr)
+        if cache is not local.db2cache.get(cache.database):
+            throw(TransactionError, "Object %s doesn't belong to current transaction" % safe_repr(obj))
         if obj._status_ in del_statuses: throw_object_was_deleted(obj)
         reverse = attr.reverse
         new_val = attr.validate(new_val, obj, from_db=False)
@@ -3051,6 +3055,8 @@ class Set(Collection):
             return  # after += or -=
         cache = obj._session_cache_
         if cache is None or not cache.is_alive: throw_db_session_is_over('change collection', obj, attr)
+        if cache is not obj._database_._get_cache():
+            throw(TransactionError, "Object %s doesn't belong to current transaction" % safe_repr(obj))
         if obj._status_ in del_statuses: throw_object_was_deleted(obj)
         with cache.flush_disabled():
             new_items = attr.validate(new_items, obj)
@@ -3354,6 +3360,8 @@ class SetInstance(object):
         elif setdata.count is not None: return not setdata.count
         cache = obj._session_cache_
         if cache is None or not cache.is_alive: throw_db_session_is_over('read value of', obj, attr)
+        if cache is not obj._database_._get_cache():
+            throw(TransactionError, "Object %s doesn't belong to current transaction" % safe_repr(obj))
         if setdata is None: setdata = obj._vals_[attr] = SetData()
         entity = attr.entity
         reverse = attr.reverse
@@ -3410,6 +3418,8 @@ class SetInstance(object):
         setdata = obj._vals_.get(attr)
         if setdata is not None and setdata.count is not None: return setdata.count
         if cache is None or not cache.is_alive: throw_db_session_is_over('read value of', obj, attr)
+        if cache is not obj._database_._get_cache():
+            throw(TransactionError, "Object %s doesn't belong to current transaction" % safe_repr(obj))
         if setdata is None: setdata = obj._vals_[attr] = SetData()
         entity = attr.entity
         reverse = attr.reverse
@@ -3503,6 +3513,8 @@ class SetInstance(object):
         attr = wrapper._attr_
         cache = obj._session_cache_
         if cache is None or not cache.is_alive: throw_db_session_is_over('change collection', obj, attr)
+        if cache is not obj._database_._get_cache():
+            throw(TransactionError, "Object %s doesn't belong to current transaction" % safe_repr(obj))
         if obj._status_ in del_statuses: throw_object_was_deleted(obj)
         with cache.flush_disabled():
             reverse = attr.reverse
@@ -3542,6 +3554,8 @@ class SetInstance(object):
         attr = wrapper._attr_
         cache = obj._session_cache_
         if cache is None or not cache.is_alive: throw_db_session_is_over('change collection', obj, attr)
+        if cache is not obj._database_._get_cache():
+            throw(TransactionError, "Object %s doesn't belong to current transaction" % safe_repr(obj))
         if obj._status_ in del_statuses: throw_object_was_deleted(obj)
         with cache.flush_disabled():
             reverse = attr.reverse
@@ -4916,6 +4930,8 @@ class Entity(object, metaclass=EntityMeta):
     def _attr_changed_(obj, attr):
         cache = obj._session_cache_
         if cache is None or not cache.is_alive: throw_db_session_is_over('assign new value to', obj, attr)
+        if cache is not local.db2cache.get(cache.database):
+            throw(TransactionError, "Object %s doesn't belong to current transaction" % safe_repr(obj))
         if obj._status_ in del_statuses: throw_object_was_deleted(obj)
         status = obj._status_
         wbits = obj._wbits_
@@ -5104,11 +5120,15 @@ class Entity(object, metaclass=EntityMeta):
     def delete(obj):
         cache = obj._session_cache_
         if cache is None or not cache.is_alive: throw_db_session_is_over('delete object', obj)
+        if cache is not obj._database_._get_cache():
+            throw(TransactionError, "Object %s doesn't belong to current transaction" % safe_repr(obj))
         obj._delete_()
     @cut_traceback
     def set(obj, **kwargs):
         cache = obj._session_cache_
         if cache is None or not cache.is_alive: throw_db_session_is_over('change object', obj)
+        if cache is not obj._database_._get_cache():
+            throw(TransactionError, "Object %s doesn't belong to current transaction" % safe_repr(obj))
         if obj._status_ in del_statuses: throw_object_was_deleted(obj)
         with cache.flush_disabled():
             avdict, collection_avdict = obj._keyargs_to_avdicts_(kwargs)
@@ -5477,6 +5497,8 @@ class Entity(object, metaclass=EntityMeta):
 
         cache = obj._session_cache_
         if cache is None or not cache.is_alive: throw_db_session_is_over('flush object', obj)
+        if cache is not obj._database_._get_cache():
+            throw(TransactionError, "Object %s doesn't belong to current transaction" % safe_repr(obj))
         assert obj._save_pos_ is not None, 'save_pos is None for %s object' % obj._status_
         assert not cache.saved_objects
         with cache.flush_disabled():
